@@ -8,7 +8,10 @@
 
    CaseGraph: a layered (possibly nested) graph run through the public API with recording
    handlers (global, per call in several options, designated to nodes and node paths).
-   Observed: the multiset of (handler, timing code, run info) over the whole run, sorted.
+   Observed: per run info (= execution unit), in ascending order of the run info, the
+   SEQUENCE of (handler, timing code) in the order of invocation (within one unit the
+   invocations are sequential; across units the order depends on the schedule and is not
+   compared: Props/C10.v [schedule_independent]).
 
    It is compared with the canonical run of the heap-level model AND with the closed form
    [graph_table] / [uexp_events] of Model/CallbacksSched.v (what Props/C10.v
@@ -45,6 +48,24 @@ Fixpoint list_eqb {A} (eqb : A -> A -> bool) (a b : list A) : bool :=
   | _, _ => false
   end.
 
+Definition ev_info (e : event) : N := match e with Ev _ _ _ i => i end.
+Definition ev2 (e : event) : N * N := match e with Ev _ x t _ => (x, timing_code t) end.
+Definition n2_eqb (a b : N * N) : bool := N.eqb (fst a) (fst b) && N.eqb (snd a) (snd b).
+
+Fixpoint dedup_sorted (l : list N) : list N :=
+  match l with
+  | a :: ((b :: _) as tl) => if N.eqb a b then dedup_sorted tl else a :: dedup_sorted tl
+  | _ => l
+  end.
+
+(* the log grouped by run info: ascending run infos, the events of each in log order *)
+Definition by_info (log : list event) : list (N * list (N * N)) :=
+  map (fun i => (i, map ev2 (filter (fun e => N.eqb (ev_info e) i) log)))
+      (dedup_sorted (sort_by N.ltb (map ev_info log))).
+
+Definition group_eqb (a b : N * list (N * N)) : bool :=
+  N.eqb (fst a) (fst b) && list_eqb n2_eqb (snd a) (snd b).
+
 Definition mk_world (globals : list handler) (needs : list (handler * list N)) : world :=
   {| w_pol := pol_double; w_globals := globals; w_needs := needs_of needs |}.
 
@@ -53,13 +74,23 @@ Inductive ccase : Type :=
              (obs : list (N * N * N * N)) (final : list (ukey * list handler))
 | CaseGraph (globals : list handler) (needs : list (handler * list N)) (opts : list copt)
             (is_stream : bool) (g : ukey) (ginf : info) (stages : list (list gnode))
-            (obs : list (N * N * N))
-| CaseStream (src : list N) (n : nat) (acts : list cact) (obs : list (list N)) (closed : option bool).
+            (obs : list (N * list (N * N)))
+| CaseStream (globals locals : list handler) (t : timing) (order : list handler)
+             (src : list N) (acts : list cact) (obs : list (list N)) (closed : option bool).
+    (* order = the handlers in the order in which they were handed their copy (copy k goes
+       to the k-th, the last copy to the flow) *)
+
+Definition reader_eqb (a b : reader) : bool :=
+  match a, b with
+  | RHandler x, RHandler y => N.eqb x y
+  | RFlow, RFlow => true
+  | _, _ => false
+  end.
 
 (* the closed form: the events of all units of the table *)
 Definition table_events (w : world) (is_stream : bool) (g : ukey) (ginf : info) (opts : list copt)
-           (stages : list (list gnode)) : list (N * N * N) :=
-  sort_by n3_ltb (map ev3 (flat_map (uexp_events w) (graph_table is_stream g ginf opts stages))).
+           (stages : list (list gnode)) : list (N * list (N * N)) :=
+  by_info (flat_map (fun ep => uexp_events w (fst ep)) (graph_table_p is_stream g ginf opts stages)).
 
 Definition final_ok (st : state) (final : list (ukey * list handler)) : bool :=
   forallb (fun uf : ukey * list handler =>
@@ -75,10 +106,15 @@ Definition bad (c : ccase) : bool :=
       negb (negb (st_bad st) && list_eqb n4_eqb (map ev4 (st_log st)) obs && final_ok st final)
   | CaseGraph globals needs opts is_stream g ginf stages obs =>
       let st := run_script true (mk_world globals needs) (graph_ops is_stream g ginf opts stages) in
-      negb (negb (st_bad st) && list_eqb n3_eqb (sort_by n3_ltb (map ev3 (st_log st))) obs
-            && list_eqb n3_eqb (table_events (mk_world globals needs) is_stream g ginf opts stages) obs)
-  | CaseStream src n acts obs closed =>
-      negb (list_eqb (list_eqb N.eqb) (received_all src n acts) obs &&
+      negb (negb (st_bad st) && list_eqb group_eqb (by_info (st_log st)) obs
+            && list_eqb group_eqb (table_events (mk_world globals needs) is_stream g ginf opts stages) obs)
+  | CaseStream globals locals t order src acts obs closed =>
+      (* On: the selected handlers in invocation order; OnWithStreamHandle: one copy each, one more for the flow *)
+      let w := mk_world globals [] in
+      let copies := stream_copies (invoke_order t (select w t (locals ++ w_globals w))) in
+      let n := List.length copies in
+      negb (list_eqb reader_eqb (map snd copies) (map RHandler order ++ [RFlow]) &&
+            list_eqb (list_eqb N.eqb) (received_all src n acts) obs &&
             match closed with
             | None => true
             | Some b => Bool.eqb (all_closed (run_acts (copy_n src n) acts)) b
@@ -92,4 +128,4 @@ Definition model_script (globals : list handler) (needs : list (handler * list N
   map ev4 (st_log (run_script true (mk_world globals needs) ops)).
 Definition model_graph (globals : list handler) (needs : list (handler * list N)) (opts : list copt)
            (is_stream : bool) (g : ukey) (ginf : info) (stages : list (list gnode)) :=
-  sort_by n3_ltb (map ev3 (st_log (run_script true (mk_world globals needs) (graph_ops is_stream g ginf opts stages)))).
+  by_info (st_log (run_script true (mk_world globals needs) (graph_ops is_stream g ginf opts stages))).
